@@ -83,8 +83,14 @@ enum Op {
     /// the application registers a tag of its own in dcbor's global tag registry and then formats a value that
     /// carries it: the tag's name shows iff the format context was first used after the registration
     RegisterDcborTagThenFormat,
+    /// envelope notation under no context at all (`format_opt(None)`): a function of the envelope alone, whatever
+    /// any thread has registered in the global context
+    FormatOptNone,
+    /// a thread registers a function and a parameter that have numbers but no names (possibly as the registries'
+    /// first user) and asks for their names: the numbers, from every thread, and the registries stay usable
+    RegisterUnnamedThenLookup,
 }
-const OPS: [Op; 22] = [Op::Format, Op::FormatFlat, Op::TreeFormat, Op::DiagAnnotated, Op::Hex, Op::RegisterTags, Op::ContextRead, Op::KnownValuesLookup, Op::FunctionsLookup, Op::DcborDiag, Op::SharedCodec, Op::RegisterThenUr, Op::CustomTagThenFormat, Op::HoldRegistryThenFormat, Op::EarlyFailureSummary, Op::ResponseDisplay, Op::RequestSummary, Op::EventSummary, Op::ExpressionDisplay, Op::RegisterInStoresThenLookup, Op::ConfigureFlatThenFormat, Op::RegisterDcborTagThenFormat];
+const OPS: [Op; 24] = [Op::Format, Op::FormatFlat, Op::TreeFormat, Op::DiagAnnotated, Op::Hex, Op::RegisterTags, Op::ContextRead, Op::KnownValuesLookup, Op::FunctionsLookup, Op::DcborDiag, Op::SharedCodec, Op::RegisterThenUr, Op::CustomTagThenFormat, Op::HoldRegistryThenFormat, Op::EarlyFailureSummary, Op::ResponseDisplay, Op::RequestSummary, Op::EventSummary, Op::ExpressionDisplay, Op::RegisterInStoresThenLookup, Op::ConfigureFlatThenFormat, Op::RegisterDcborTagThenFormat, Op::FormatOptNone, Op::RegisterUnnamedThenLookup];
 
 impl Op {
     /// uses the global format context (initialises it on first use)
@@ -199,6 +205,27 @@ fn run_op(op: Op, e: &Envelope, shared: &Arc<Envelope>) -> String {
             let kn = known_values::KNOWN_VALUES.get().as_ref().and_then(|s| s.assigned_name(&k).map(|x| x.to_string()));
             format!("{:?}|{:?}|{:?}", pn, fnm, kn)
         }
+        Op::FormatOptNone => e.format_opt(None),
+        Op::RegisterUnnamedThenLookup => {
+            use bc_envelope::extension::expressions::{FunctionsStore, ParametersStore, GLOBAL_FUNCTIONS, GLOBAL_PARAMETERS};
+            let f = Function::new_known(7104, None);
+            let p = Parameter::new_known(7103, None);
+            {
+                let mut g = GLOBAL_FUNCTIONS.get();
+                if let Some(s) = g.as_mut() {
+                    s.insert(f.clone());
+                }
+            }
+            {
+                let mut g = GLOBAL_PARAMETERS.get();
+                if let Some(s) = g.as_mut() {
+                    s.insert(p.clone());
+                }
+            }
+            let fname = FunctionsStore::name_for_function(&f, GLOBAL_FUNCTIONS.get().as_ref());
+            let pname = ParametersStore::name_for_parameter(&p, GLOBAL_PARAMETERS.get().as_ref());
+            format!("{}/{}", fname, pname)
+        }
         Op::ConfigureFlatThenFormat => {
             bc_envelope::with_format_context_mut!(|c: &mut FormatContext| {
                 *c = c.clone().set_flat(true);
@@ -261,6 +288,8 @@ struct Expected {
     /// format() of the shared envelope: hierarchical and flat texts (S1 and S2 variants)
     shared_hier: Vec<String>,
     shared_flat: Vec<String>,
+    /// format_opt(None) of envelope i (no state: the same before and after anything is registered)
+    fmt_none: Vec<String>,
 }
 
 static EXPECTED: OnceLock<Expected> = OnceLock::new();
@@ -337,6 +366,9 @@ fn calibrate() -> Expected {
             }
         }
         ex.shared_hier.push(shared.format());
+        for e in &es {
+            ex.fmt_none.push(run_op(Op::FormatOptNone, e, &shared));
+        }
         set_flat(true);
         for (i, e) in es.iter().enumerate() {
             for op in OPS.iter().filter(|o| o.formats()) {
@@ -360,6 +392,9 @@ fn calibrate() -> Expected {
             }
         }
         ex.shared_hier.push(shared.format());
+        for (i, e) in es.iter().enumerate() {
+            assert!(run_op(Op::FormatOptNone, e, &shared) == ex.fmt_none[i], "C20.alone-text: format_opt(None), which is given no context, returns one text before register_tags() and another after it");
+        }
         set_flat(true);
         for (i, e) in es.iter().enumerate() {
             for op in OPS.iter().filter(|o| o.formats()) {
@@ -371,7 +406,8 @@ fn calibrate() -> Expected {
         // configuring flat, formatting and restoring, alone: the flat text
         let alone = run_op(Op::ConfigureFlatThenFormat, &es[0], &shared);
         assert!(ex.shared_flat.contains(&alone), "C20.alone-text: format() under a flat global context does not return the flat text");
-        // last, because it leaves its entries in the registries
+        // last, because they leave their entries in the registries
+        ex.constants.insert(Op::RegisterUnnamedThenLookup, run_op(Op::RegisterUnnamedThenLookup, &es[0], &shared));
         ex.constants.insert(Op::RegisterInStoresThenLookup, run_op(Op::RegisterInStoresThenLookup, &es[0], &shared));
         *o2.lock().unwrap() = ex;
         reset_registries();
@@ -525,6 +561,12 @@ fn check_history(events: &[Event], ex: &Expected) {
             }
             if e.out == "unnamed" && !could_be_initialised_by_others {
                 panic!("C20.alone-text: a tag registered in dcbor's global registry before the format context was first used does not show in the notation");
+            }
+            continue;
+        }
+        if e.op == Op::FormatOptNone {
+            if e.out != ex.fmt_none[e.env] {
+                panic!("C20.alone-text: format_opt(None) on envelope {} returned a text it never returns when run alone:\n{}\n--- alone:\n{}", e.env, e.out, ex.fmt_none[e.env]);
             }
             continue;
         }
@@ -747,9 +789,19 @@ fn run_check(tier: &str) -> i32 {
     let total: usize = std::env::var("VERIF_RUNS").ok().and_then(|s| s.parse().ok()).unwrap_or(if tier == "thorough" { 1_500_000 } else { 24_000 });
     let t0 = Instant::now();
     // watchdog: a lock the scheduler does not see could block for real
+    // (judged by progress, not by wall-clock time for the whole batch: a loaded machine is slow, not blocked)
     std::thread::spawn(move || {
-        std::thread::sleep(std::time::Duration::from_secs(if total > 100_000 { 3600 } else { 600 }));
-        println!("violation: oracle=C20.completion the schedule batch did not complete within the watchdog time (a real, uncontrolled lock is blocking)");
+        let (mut last, mut idle) = (u64::MAX, 0u64);
+        loop {
+            std::thread::sleep(std::time::Duration::from_secs(10));
+            let now = stats().executions.load(Ordering::Relaxed);
+            idle = if now == last { idle + 10 } else { 0 };
+            last = now;
+            if idle >= 600 {
+                break;
+            }
+        }
+        println!("violation: oracle=C20.completion no schedule completed for ten minutes (a real, uncontrolled lock is blocking)");
         println!("VIOLATION property=C20 replay={}/replays/C20-watchdog-{}.json", verif_dir(), seed);
         std::process::exit(1);
     });
